@@ -21,7 +21,7 @@ func traceOf(c core.Case, out []string) (core.Case, bool) {
 	for i := 1; i < len(c.Lines); i++ {
 		t := core.Toks(c.Lines[i])
 		o := out[i]
-		if strings.Contains(o, "inconclusive") || strings.Contains(o, "deadlock") || o == "skipped" || o == "bad-op" || o == "panic" || o == "dead" {
+		if strings.Contains(o, "inconclusive") || strings.Contains(o, "deadlock") || strings.Contains(o, "handler-missing") || o == "skipped" || o == "bad-op" || o == "panic" || o == "dead" {
 			return core.Case{}, false
 		}
 		switch t[0] {
@@ -30,6 +30,9 @@ func traceOf(c core.Case, out []string) (core.Case, bool) {
 		case "wait":
 			lines = append(lines, "waitcall")
 		case "k":
+			continue
+		case "waitt":
+			lines = append(lines, "timedwait")
 			continue
 		}
 		for _, e := range strings.Split(o, " | ") {
